@@ -753,9 +753,9 @@ class Note:
         elif self.octave != 0 and (self.is_silence or self.is_continuation):
             result += f".oabs({self.octave})"
 
-        if self.mode is not None and self.is_note:
+        if self.mode is not None:
             result += f".{self.mode}"
-        if self.accident is not None and self.is_note:
+        if self.accident is not None:
             result += f".{self.accident}"
         if self.is_note or self.type == "x" or self.is_drum:
             amp_figure = self.amp_figure
